@@ -17,7 +17,7 @@ DICTS = ["", "none", "8", "16", "32", "64"]
 def rand_batch(rng, rich=None, twins=None, guarded=True, size="small"):
     mr, ms, mi = {"small": (2, 2, 3), "medium": (3, 3, 8), "large": (4, 4, 40)}[size]
     return {"gen": "rand", "seed": rng.randint(1, 1 << 40), "rich": rng.choice([0, 1, 1, 2]) if rich is None else rich,
-            "twins": (rng.random() < 0.25) if twins is None else twins, "guarded": guarded,
+            "twins": (rng.random() < 0.35) if twins is None else twins, "guarded": guarded,
             "maxRes": mr, "maxScope": ms, "maxItems": mi}
 
 def rand_stream(rng, sid, signal, props, opts=None, nb=None, guarded=True, size=None):
